@@ -8,6 +8,7 @@ package main
 // checks (a 503 means nothing was forwarded; a disabled or removed server sees no probe).
 
 import (
+	"runtime"
 	"fmt"
 	"os"
 	"io"
@@ -48,6 +49,9 @@ func (s *stub) ServeHTTP(w http.ResponseWriter, r *http.Request) {
 	defer s.mu.Unlock()
 	if strings.HasSuffix(r.URL.Path, "/healthz") {
 		s.probes++
+		if os.Getenv("VERIF_C03_DEBUG") != "" {
+			fmt.Fprintf(os.Stderr, "DEBUG probe %d at %s arrives %s mayRecv=%v\n", s.probes, s.url, time.Now().Format("15:04:05.000"), s.mayRecv)
+		}
 		if !s.inSpec {
 			s.viol = append(s.viol, "stub "+s.url+" received a /healthz probe while it is not in the server list")
 		} else if !s.mayRecv {
@@ -414,6 +418,17 @@ func runDispatch(c *rig.Ctx, cs DCase, record bool, st *stats) bool {
 		}
 		workers := -1
 		var opErr string
+		opDone := make(chan struct{})
+		if os.Getenv("VERIF_C03_DEBUG") != "" && d.Op != "wait" {
+			go func() {
+				select {
+				case <-opDone:
+				case <-time.After(3 * time.Second):
+					buf := make([]byte, 1<<20)
+					fmt.Fprintf(os.Stderr, "DEBUG STACKS op %d\n%s\nDEBUG END\n", i, buf[:runtime.Stack(buf, true)])
+				}
+			}()
+		}
 		msg, panicked := rig.Recover(func() {
 			switch d.Op {
 			case "sync":
@@ -602,6 +617,7 @@ func runDispatch(c *rig.Ctx, cs DCase, record bool, st *stats) bool {
 				matches++
 			}
 		})
+		close(opDone)
 		if panicked {
 			return fail("judge", "c03.panic", fmt.Sprintf("end-to-end op %d (%s) panicked: %s", i, d.Op, msg), nil)
 		}
@@ -624,7 +640,11 @@ func runDispatch(c *rig.Ctx, cs DCase, record bool, st *stats) bool {
 		for _, e := range plan.Steps[last].Eps {
 			want[lib.Ident{N: e.N, Gen: e.Gen}] = e.Probes
 		}
+		tq := time.Now()
 		unsettled := w.Quiesce(want, workers)
+		if os.Getenv("VERIF_C03_DEBUG") != "" {
+			fmt.Fprintf(os.Stderr, "DEBUG op %d %s done at %s quiesce took %s unsettled=%q stub0 probes=%d\n", i, d.Op, time.Now().Format("15:04:05.000"), time.Since(tq), unsettled, ss[0].probes)
+		}
 		if w.IsInconclusive() {
 			// a real /healthz probe did not report what the stub was scripted to answer (client timeout under load)
 			c.Count("e2e-inconclusive")
